@@ -186,6 +186,21 @@ End Keyed.
 Lemma forallb_Forall {A} (p : A -> bool) l : forallb p l = true -> Forall (fun x => p x = true) l.
 Proof. intros Hf. apply Forall_forall. apply forallb_forall. exact Hf. Qed.
 
+Lemma has_false_notin {K V} `{EqDec K} (k : K) (m : list (K * V)) : ~ In k (map fst m) -> has k m = false.
+Proof.
+  unfold has. induction m as [|[k' v'] m IH]; simpl; intros Hn; [reflexivity|].
+  destruct (eq_dec k k') as [->|Hne]; [exfalso; apply Hn; left; reflexivity|].
+  apply IH. intros Hin. apply Hn. right. exact Hin.
+Qed.
+
+Lemma keys_oins_inv {K V} `{EqDec K} (ltb : K -> K -> bool) k' k (v : V) m :
+  In k' (map fst (oins ltb k v m)) -> k' = k \/ In k' (map fst m).
+Proof.
+  intros Hin. apply in_map_iff in Hin. destruct Hin as (e & <- & He).
+  apply In_oins_inv in He. destruct He as [->|He]; [left; reflexivity|].
+  right. apply in_map_iff. exists e. split; [reflexivity|exact He].
+Qed.
+
 (** ** Key orders used by the models *)
 Definition lt1 (a b : Z) : bool := a <? b.
 Definition lt2 (a b : Z * Z) : bool :=
@@ -209,6 +224,13 @@ Lemma lt3_asym a b : lt3 a b = true -> lt3 b a = false.
 Proof. destruct a as [[? ?] ?], b as [[? ?] ?]. unfold lt3. lia. Qed.
 Lemma lt3_trans a b c : lt3 a b = true -> lt3 b c = true -> lt3 a c = true.
 Proof. destruct a as [[? ?] ?], b as [[? ?] ?], c as [[? ?] ?]. unfold lt3. lia. Qed.
+
+Lemma get_none_all_lt {V} k (m : list (Z * V)) : Forall (fun a => lt1 (fst a) k = true) m -> get k m = None.
+Proof.
+  induction m as [|[k' v'] m IH]; simpl; intros Hall; [reflexivity|].
+  inversion Hall as [|? ? Hk Hall']; subst. simpl in Hk. unfold lt1 in Hk.
+  destruct (eq_dec k k') as [->|Hne]; [lia|]. apply IH. exact Hall'.
+Qed.
 
 (** ** Small helpers shared by the per-module genesis models *)
 
